@@ -1,5 +1,5 @@
 """Registry: property id -> rule set, level and explanations."""
-from . import p_symbols
+from . import p_symbols, p_rs
 
 PROPS = {}
 
@@ -14,6 +14,24 @@ PROPS["C12"] = {
     "trusted_base": ["rustc type checking / THIR construction", "std BTreeSet and RangeBounds::contains semantics",
                      "reference/symbols.json (hand transcription of the standard, self-checked)", "rules/p_symbols.py"],
     "assumptions": ["default cargo features (extended_eci does not compile on the pinned tree)"],
+}
+
+PROPS["C06"] = {
+    "level": "proof",
+    "rules": [p_rs.tab_gen, p_rs.tab_gf, p_rs.gf_ops, p_symbols.tab_sym, p_rs.prov_rsenc, p_rs.uniform],
+    "explanation": "Decided: (1) all 25 generator polynomials equal prod(x-2^i) computed by an independent carry-less GF(256) "
+                   "implementation, one per degree required by the standard, and generator(len) selects by degree; (2) ANTI_LOG/LOG "
+                   "equal the powers of 2 modulo 0x12D and GF add/sub/mul/div agree with the reference field for all 65536 operand "
+                   "pairs (loop-free bodies reduced as decision lists); (3) every size's data/ecc/block numbers equal the standard; "
+                   "(4) encode_error's wiring: generator of the size's k, block loop over all B blocks, block input = strided view "
+                   "of `data` with offset block and stride B, output interleaved with skip(block).step_by(B), scratch of k+1 cells "
+                   "zeroed per block, result length k*B; (5) ecc_block has no size-dependent branch. NOT decided: the LFSR recurrence "
+                   "inside ecc_block itself (pinned for k=5 by the existing tests ecc_block_1/test_error_code; UNIFORM shows it is the "
+                   "same code for every k).",
+    "trusted_base": ["rustc const evaluation of the tables", "rules/gf.py reference field arithmetic", "reference/symbols.json",
+                     "existing tests ecc_block_1 and test_error_code pin the LFSR for k=5"],
+    "assumptions": ["default cargo features"],
+    "technique": "constant-table proof obligations + structural wiring rules over THIR",
 }
 
 NOT_APPLICABLE = {
